@@ -8,8 +8,8 @@ executable checker `pathOK` accepts the path returned by the implementation for 
 the path is well formed (axis-parallel non-zero segments, closed sub-paths, moves after a
 close, inside the bounding box) and its even–odd fill is exactly the bitmap. The check runs
 `pathOK` (compiled from the same definition) on every path the implementation returns.
-`path_model_ok` (the implementation's Hierholzer walk always produces an accepted path) is
-not proved; see DESIGN.md.
+`path_model_ok` (the Lean model of the implementation's Hierholzer walk always produces an
+accepted path, for every bitmap with a dark top-left module) is proved in `DM/Props/C17b.lean`.
 -/
 namespace DM.Props.C17
 open DM.Lemmas DM.Model DM.Spec.Fill
